@@ -87,4 +87,21 @@ pub fn run(ctx: &mut Ctx) {
 
     let n = ctx.tier.pick(160_000, 1_000_000);
     ctx.run_proptest("random-any-length", &STD, n, payload_inputs(SUPPORTED.to_vec(), LenMode::Any, Prop::C14, 5, 0.2), check);
+    // every pair of fields at their special values (see gen::payload::pairwise_specials)
+    {
+        let mut mix = crate::util::Mix::new(ctx.seed, 0xa11);
+        let reps = ctx.tier.pick(1, 6);
+        for (t, len, part) in crate::gen::payload::pairwise_shapes() {
+            
+            crate::gen::payload::pairwise_specials(t, len, part, reps, &mut mix, |b| {
+                ctx.sweep_case("pairwise-special-values", &crate::adapter::STD, &Input::Payload { bytes: b }, check);
+            });
+        }
+        ctx.mark_exhaustive("pairwise-special-values", "every pair of fields of every layout (longest specified shape, and the shortest for the variable ones) x each field's special values (0, 1, max, max-1, 'not available' codes, MMSI station classes; all values of fields up to 3 bits), other bits random");
+    }
+    // decoding after an arbitrary history, in an unfragmented sentence or in a closing line without a group
+    {
+        let n_after = ctx.tier.pick(24_000, 300_000);
+        ctx.run_proptest("after-history", &crate::adapter::STD, n_after, crate::gen::payload::payload_inputs_after(SUPPORTED.to_vec(), Prop::C14), check);
+    }
 }
